@@ -147,6 +147,18 @@ theorem quantise_meets_spec_rat (m : Nat) (e : Int) (h1 : 2 ^ 52 ≤ m) (h2 : m 
     rw [if_neg (fun h => hout (hr.1 h))] at hok
     exact hok.1
 
+/-- The multiplier is the non-renormalised `2^31` (which does not fit a signed 32-bit integer, cf.
+    `fp_math.saturating_rounding_mul32`) exactly for significands within `2^-32` of 1; the reference
+    derivation returns `(2^30, shift + 1)` there. -/
+theorem quantise_multiplier_is_two_pow_31_iff (m : Nat) (e : Int) (h1 : 2 ^ 52 ≤ m) (h2 : m < 2 ^ 53)
+    (hin : HwRange m e) (q s : Int) (h : quantiseScale (.fin false m e) = .ok (q, s)) :
+    q = 2 ^ 31 ↔ 2 ^ 53 - 2 ^ 21 ≤ m := by
+  have := (quantise_in_range m e h1 h2 hin).1
+  rw [this] at h
+  injection h with h; injection h with hq hs
+  subst hq
+  omega
+
 /-- Negative scales give the mirrored multiplier with the same shift (`round_away_zero` is odd). -/
 theorem quantise_negative_mirror (m : Nat) (e : Int) (h0 : 0 < m) (h2 : m < 2 ^ 53) :
     ∃ q s, quantiseScale (.fin false m e) = .ok (q, s) ∧ quantiseScale (.fin true m e) = .ok (-q, s) := by
@@ -606,5 +618,16 @@ example : HwRange16 7205759403792794 (-56) ∧
 example : (1 : Int) ≤ 9 ∧ (9 : Int) ≤ 65536 ∧ (-1152 : Int).natAbs ≤ (9 : Int).natAbs * 2 ^ 8 ∧
     quantisePoolingScale 9 0 = .ok (3817748709, 35) ∧ PoolOk 3817748709 35 9 (-1152) ∧
     PoolOk 3817748709 35 9 (-1148) ∧ refAvg (-1148) 9 = -128 ∧ refAvg 14 4 = 4 ∧ refAvg (-14) 4 = -4 := by decide
+
+-- elementwise helpers: with the (exact) oracle "return the first operand" the hypotheses of
+-- `advanced_fields` / `advanced_scales_smaller` / `mul_scale_fields` are met by 0.1, 0.2, 0.3
+example :
+    advancedAddSub ⟨fun _ a _ => a, fun _ a _ => a, fun _ a => a⟩
+      ⟨.f32, .fin false 13421773 (-27)⟩ ⟨.f32, .fin false 13421773 (-26)⟩ ⟨.f32, .fin false 10066330 (-25)⟩ 8 =
+      .ok ⟨1717986944, 34, 1717986944, 33, .opa⟩ ∧
+    elementwiseMulScale ⟨fun _ a _ => a, fun _ a _ => a, fun _ a => a⟩
+      ⟨.py, .fin false 13421773 (-27)⟩ ⟨.py, .fin false 1 0⟩ ⟨.py, .fin false 1 0⟩ = .ok (1717986944, 34) := by decide
+-- the float32 all-ones significand is *not* in the 2^31 corner, the double below 1.0 is
+example : sigQ31 ((2 ^ 24 - 1) * 2 ^ 29) = 2 ^ 31 - 128 ∧ sigQ31 (2 ^ 53 - 1) = 2 ^ 31 := by decide
 
 end VelaVerif.Props.C09
